@@ -271,8 +271,39 @@ func (c *Ctx) Floor(name string, min int64) {
 	}
 }
 
+// collectRaceReports turns reports written by the Go race detector (GORACE log_path) into violations.
+func (c *Ctx) collectRaceReports() {
+	base := os.Getenv("VERIF_RACE_LOG")
+	if base == "" {
+		return
+	}
+	files, _ := filepath.Glob(base + ".*")
+	total := 0
+	var first string
+	for _, f := range files {
+		b, err := os.ReadFile(f)
+		if err != nil {
+			continue
+		}
+		n := strings.Count(string(b), "WARNING: DATA RACE")
+		total += n
+		if n > 0 && first == "" {
+			first = string(b)
+			if len(first) > 6000 {
+				first = first[:6000]
+			}
+		}
+		_ = os.Remove(f)
+	}
+	c.Set("race_reports", total)
+	if total > 0 {
+		c.Violation(fmt.Sprintf("%s the Go race detector reported %d data race(s) during the workload: %s", c.ID, total, trunc(first, 1500)), map[string]interface{}{"race_report": first})
+	}
+}
+
 // Finish writes the evidence file and returns the exit code (0 held, 1 violated, 2 inconclusive).
 func (c *Ctx) Finish() int {
+	c.collectRaceReports()
 	c.mu.Lock()
 	defer c.mu.Unlock()
 	cov := map[string]interface{}{}
